@@ -736,7 +736,7 @@ func (inc *c13Inc) shutdown() error {
 	select {
 	case err := <-done:
 		return err
-	case <-time.After(20 * time.Second):
+	case <-time.After(40 * time.Second):
 		return fmt.Errorf("arbitrator Stop() hangs")
 	}
 }
@@ -770,17 +770,17 @@ func c13Drive(w *c13World, inc *c13Inc, first bool, rng *rand.Rand) error {
 			respChan := make(chan *wire.MsgTx, 1)
 			select {
 			case arb.forceCloseReqs <- &forceCloseReq{errResp: errChan, closeTx: respChan}:
-			case <-time.After(5 * time.Second):
+			case <-time.After(30 * time.Second):
 				return fmt.Errorf("force close request not taken")
 			}
 			select {
 			case <-respChan:
-			case <-time.After(5 * time.Second):
+			case <-time.After(30 * time.Second):
 				return fmt.Errorf("no force close response")
 			}
 			select {
 			case <-errChan:
-			case <-time.After(5 * time.Second):
+			case <-time.After(30 * time.Second):
 				return fmt.Errorf("no force close error response")
 			}
 		}
@@ -834,11 +834,21 @@ func c13Drive(w *c13World, inc *c13Inc, first bool, rng *rand.Rand) error {
 			beat := newBeatFromHeight(height)
 			done := make(chan struct{})
 			go func() { arb.ProcessBlock(beat); close(done) }()
-			select {
-			case <-done:
-			case <-time.After(10 * time.Second):
-				if !w.isCrashed() {
-					return fmt.Errorf("ProcessBlock(%d) did not return", height)
+			// a dead node never answers (its attendant may have returned): stop waiting as soon
+			// as the crash has happened
+			t0 := time.Now()
+		wait:
+			for {
+				select {
+				case <-done:
+					break wait
+				case <-time.After(10 * time.Millisecond):
+					if w.isCrashed() {
+						break wait
+					}
+					if time.Since(t0) > 40*time.Second {
+						return fmt.Errorf("ProcessBlock(%d) did not return", height)
+					}
 				}
 			}
 			q()
@@ -1050,8 +1060,13 @@ func c13Run(t *testing.T, plan c13Plan, rng *rand.Rand) ([]c13Line, int, error) 
 // multi-crash plans.  Runs are independent (own database, own world) and are
 // executed by a small worker pool; the trace file keeps the plan order.
 func TestVerifC13Arbitrator(t *testing.T) {
-	out := verifkit.MustWriter(verifkit.Env("VERIF_OUT", ".") + "/trace.ndjson")
-	defer out.Close()
+	// the trace is flushed run by run: a panic of the code under test must not lose the runs
+	// that were already complete
+	tf, err := os.Create(verifkit.Env("VERIF_OUT", ".") + "/trace.ndjson")
+	if err != nil {
+		t.Fatal(err)
+	}
+	defer tf.Close()
 	seed := verifkit.Seed()
 	rng := rand.New(rand.NewSource(seed))
 
@@ -1072,8 +1087,11 @@ func TestVerifC13Arbitrator(t *testing.T) {
 		n     int
 		err   error
 	}
+	base := 0
 	runAll := func(plans []c13Plan) []result {
 		res := make([]result, len(plans))
+		off := base
+		base += len(plans)
 		nw := verifkit.EnvInt("VERIF_C13_WORKERS", 4)
 		var wg sync.WaitGroup
 		next := make(chan int)
@@ -1082,7 +1100,7 @@ func TestVerifC13Arbitrator(t *testing.T) {
 			go func() {
 				defer wg.Done()
 				for i := range next {
-					r := rand.New(rand.NewSource(seed*1000003 + int64(i)))
+					r := rand.New(rand.NewSource(seed*1000003 + int64(off+i)))
 					progress("start " + plans[i].String())
 					lines, n, err := c13Run(t, plans[i], r)
 					progress("done  " + plans[i].String())
@@ -1109,9 +1127,15 @@ func TestVerifC13Arbitrator(t *testing.T) {
 				t.Fail()
 				continue
 			}
+			var buf []byte
 			for _, l := range r.lines {
-				out.Emit(l)
+				b, err := json.Marshal(l)
+				if err != nil {
+					t.Fatal(err)
+				}
+				buf = append(append(buf, b...), '\n')
 			}
+			tf.Write(buf)
 			nruns++
 		}
 	}
@@ -1168,7 +1192,12 @@ func TestVerifC13Arbitrator(t *testing.T) {
 		}
 		plans = append(plans, c13Plan{Sc: sc, Crashes: cr})
 	}
-	emit(plans, runAll(plans))
+	for a := 0; a < len(plans); a += 24 {
+		b := a + 24
+		if b > len(plans) {
+			b = len(plans)
+		}
+		emit(plans[a:b], runAll(plans[a:b]))
+	}
 	t.Logf("C13: %d runs recorded", nruns)
-	_ = json.Marshal
 }
